@@ -30,7 +30,11 @@
    the situations PanicSituation names -- which is what pins the known-finding signatures.
 
    PART 3 (tree level): which leaves of an event a mask may touch (process / ignore lists, match rules),
-   keys / order / other leaves unchanged, applied-mark fields and metrics.                              *)
+   keys / order / other leaves unchanged, applied-mark fields and metrics (TreeShape, TreeScope,
+   TreeMasked, TreeApplied), with the deviation D16 named (SelectedCoded: the marks of a listed field are
+   not inherited by its nested fields once another list names something deeper) next to the property
+   (SelectedDecl); MaskTrace.tla reports a failing event as "explained by D16" only if the code's result
+   satisfies every predicate under SelectedCoded.                                                       *)
 EXTENDS Integers, Sequences, FiniteSets, TLC, Json
 
 CONSTANTS MaxLen,        \* abstract enumeration: maximal number of characters of the value
